@@ -57,11 +57,11 @@ Qed.
 
 Theorem C20_frame_v2_roundtrip : forall (msg : Type) ser deser compress decompress,
   (forall m : msg, deser (ser m) = Some m) -> (forall d, decompress (compress d) = Some d) ->
-  forall c m fr, encode_v2 msg ser compress gen_v2_checks_serialized c m = FOk fr ->
+  forall c m fr, encode_v2 msg ser compress gen_v2_checks_serialized gen_v2_checks_frame c m = FOk fr ->
   exists content, split_frame c fr = FOk (content, []) /\
                   decode_payload_v2 msg deser decompress c content = FOk m.
 Proof.
-  intros msg ser deser compress decompress H1 H2. rewrite gen_v2_ok.
+  intros msg ser deser compress decompress H1 H2. rewrite gen_v2_ok, gen_v2_frame_ok.
   exact (frame_v2_roundtrip msg ser deser compress decompress H1 H2).
 Qed.
 
@@ -72,22 +72,57 @@ Theorem C20_frame_v2_unchecked_refuted :
   let compress := fun (d : list N) => [N.of_nat (length d)] in
   let decompress := fun (z : list N) => match z with [n] => Some (repeatN 7 (N.to_nat n)) | _ => None end in
   let c := Codec 3 true 1 true in
-  exists fr content, encode_v2 (list N) ser compress false c [7; 7; 7; 7; 7] = FOk fr /\
+  exists fr content, encode_v2 (list N) ser compress false true c [7; 7; 7; 7; 7] = FOk fr /\
     split_frame c fr = FOk (content, []) /\
     decode_payload_v2 (list N) deser decompress c content = FErr (ETooLarge 5 3).
 Proof. exact frame_v2_refuted. Qed.
+
+(* ... and so is it without the sender-side check on the frame content *)
+Theorem C20_frame_v2_unframed_refuted :
+  let ser := fun (m : list N) => m in
+  let compress := fun (d : list N) => d in
+  let c := Codec 3 false 0 false in
+  exists fr, encode_v2 (list N) ser compress true false c [7; 7; 7] = FOk fr /\
+    split_frame c fr = FErr (ETooLarge 4 3).
+Proof. exact frame_v2_unframed_refuted. Qed.
 
 (* the receiver never buffers more than the configured limit for one frame *)
 Theorem C20_split_frame_bounded : forall c bs p rest,
   split_frame c bs = FOk (p, rest) -> len p <= max_frame c.
 Proof. exact split_frame_bounded. Qed.
 
+(* received sparse vectors: whatever the deserialiser produced (three independent fields), if
+   EmbeddingValidator::validate (with the checks found in the source) accepts it, then to_dense and get never
+   index out of range -- "garbage is rejected, not passed on as a valid value" *)
+Theorem C20_validated_vector_is_safe : forall max_dim mag_ok v,
+  validate_rsv (VC gen_vc_lens gen_vc_bounds_all gen_vc_sorted) max_dim mag_ok v = true ->
+  (exists d, rsv_to_dense v = Some d) /\ (forall i, exists x, rsv_get v i = Some x).
+Proof. rewrite gen_validator_ok. exact validated_consumers_safe. Qed.
+
+(* the two weaker validators that have existed (no length check: the code before the repair; bounds checked
+   from the second position on) accept vectors on which a consumer indexes out of range *)
+Theorem C20_validator_without_length_check_refuted :
+  let v := RSV 4 [0; 1; 2] [1065353216] in
+  validate_rsv (VC false true true) 1024 true v = true /\ rsv_get v 1 = None.
+Proof. exact validated_unequal_lengths_refuted. Qed.
+Theorem C20_validator_skipping_first_position_refuted :
+  let v := RSV 4 [9] [1065353216] in
+  validate_rsv (VC true false true) 1024 true v = true /\ rsv_to_dense v = None.
+Proof. exact validated_first_position_refuted. Qed.
+Example C20_validator_nonvacuous :
+  validate_rsv (VC true true true) 1024 true (RSV 4 [0; 2] [1065353216; 1073741824]) = true.
+Proof. reflexivity. Qed.
+
 (* non-vacuity of the hypotheses used above *)
 Example C20_nonvacuous :
   u64s [0; 5; 3; 18446744073709551615; 3] /\ N.of_nat (length [1; 1; 2]) < W32 /\
-  encode_v2 (list N) (fun m => m) (fun d => d) true (Codec 100 true 1 true) [1; 2; 3] = FOk (be32 4 ++ [0; 1; 2; 3]).
+  encode_v2 (list N) (fun m => m) (fun d => d) true true (Codec 100 true 1 true) [1; 2; 3] = FOk (be32 4 ++ [0; 1; 2; 3]).
 Proof. split; [repeat constructor|split; reflexivity]. Qed.
 
+Print Assumptions C20_frame_v2_unframed_refuted.
+Print Assumptions C20_validated_vector_is_safe.
+Print Assumptions C20_validator_without_length_check_refuted.
+Print Assumptions C20_validator_skipping_first_position_refuted.
 Print Assumptions C20_varint_roundtrip.
 Print Assumptions C20_varint_decode_safe.
 Print Assumptions C20_delta_roundtrip.
